@@ -95,6 +95,12 @@ impl VersionSpec {
                 let pos = chars[i].0;
                 // Check if this space is part of a range operator or separator
                 let before = &spec[current_start..pos].trim();
+                // An operator may be separated from its version (">= 1.0.0"): the space
+                // belongs to the part
+                if before.ends_with(['<', '>', '=', '^', '~']) {
+                    i += 1;
+                    continue;
+                }
                 if !before.is_empty() {
                     // Check if this might be a hyphen range separator " - "
                     // Look ahead for " - " pattern
@@ -195,7 +201,7 @@ impl VersionRange {
             parse_version(rest.trim()).map(VersionRange::Caret)
         } else if let Some(rest) = spec.strip_prefix('~') {
             parse_version(rest.trim()).map(VersionRange::Tilde)
-        } else if spec == "*" {
+        } else if Self::is_wildcard(spec) {
             Some(VersionRange::Any)
         } else if let Some(range) = Self::parse_wildcard(spec) {
             Some(range)
@@ -218,17 +224,22 @@ impl VersionRange {
         Some(VersionRange::Hyphen { from, to })
     }
 
-    /// Parse wildcard patterns like "1.x" or "1.2.x"
+    /// A wildcard component: "*", "x" or "X"
+    fn is_wildcard(component: &str) -> bool {
+        component == "*" || component.eq_ignore_ascii_case("x")
+    }
+
+    /// Parse wildcard patterns like "1.x", "1.*" or "1.2.x"
     fn parse_wildcard(spec: &str) -> Option<Self> {
         let parts: Vec<&str> = spec.split('.').collect();
 
         match parts.as_slice() {
-            // 1.x or 1.X
-            [major, x] if x.eq_ignore_ascii_case("x") => {
+            // 1.x, 1.X or 1.*
+            [major, x] if Self::is_wildcard(x) => {
                 major.parse::<u64>().ok().map(VersionRange::WildcardMajor)
             }
-            // 1.2.x or 1.2.X
-            [major, minor, x] if x.eq_ignore_ascii_case("x") => {
+            // 1.2.x, 1.2.X or 1.2.*
+            [major, minor, x] if Self::is_wildcard(x) => {
                 let major = major.parse::<u64>().ok()?;
                 let minor = minor.parse::<u64>().ok()?;
                 Some(VersionRange::WildcardMinor(major, minor))
